@@ -1,0 +1,109 @@
+// Verification hooks. Compiled only with `--cfg fastrace_verif`; never part of a normal build.
+//
+// The hooks let an external harness (a) observe and pause the calling thread at the places where
+// threads communicate through the per-thread command queues, (b) run a collector cycle on a thread
+// of its choosing and (c) read the size of the collector's retained state.
+
+use std::sync::Arc;
+use std::sync::OnceLock;
+
+/// A place at which the harness is called back. Every variant is reported by the thread that is
+/// about to perform (or has just performed) the step.
+#[derive(Debug, Clone, PartialEq, Eq)]
+pub enum Point {
+    /// `send_command` / `force_send_command` was entered with a command of this kind.
+    SendCommand {
+        kind: CommandKind,
+        collect_ids: Vec<usize>,
+        force: bool,
+    },
+    /// About to push into the ring. `replay` is true for a command taken from the overflow list.
+    RingPush { replay: bool },
+    /// Result of the push announced by the preceding `RingPush`.
+    RingPushed { ok: bool, replay: bool },
+    /// A command was parked in the overflow list because the ring was full.
+    Parked,
+    /// A non-forced command was dropped because the ring was full.
+    Dropped,
+    /// About to lock the receiver registry in order to register this thread's receiver.
+    RegisterReceiver,
+    /// About to lock the global collector in `verif::run_collector_cycle`.
+    CycleLock,
+    /// The receiver registry has been locked by a collector cycle.
+    DrainBegin,
+    /// About to drain the receiver at this position of the registry.
+    DrainReceiver { index: usize },
+    /// About to pop from the ring of the receiver being drained.
+    BeforePop,
+    /// The ring was found empty; about to check whether the producer is gone.
+    RecvEmptyBeforeAbandonCheck,
+    /// A command was popped from the receiver being drained.
+    Drained {
+        kind: CommandKind,
+        collect_ids: Vec<usize>,
+    },
+    /// The receiver at this position was found closed and is removed from the registry.
+    ReceiverClosed { index: usize },
+    /// The receiver registry has been unlocked.
+    DrainEnd,
+    /// A collector cycle has ended; `records` were handed to the reporter (`None`: no reporter).
+    CycleEnd { records: Option<usize> },
+}
+
+#[derive(Debug, Clone, Copy, PartialEq, Eq)]
+pub enum CommandKind {
+    Start,
+    Drop,
+    Commit,
+    Submit,
+}
+
+pub type Hook = Arc<dyn Fn(&Point) + Send + Sync>;
+
+static HOOK: OnceLock<Hook> = OnceLock::new();
+
+/// Installs the harness callback. Only the first call has an effect.
+pub fn set_hook(hook: Hook) {
+    let _ = HOOK.set(hook);
+}
+
+#[inline]
+pub(crate) fn point(p: Point) {
+    if let Some(hook) = HOOK.get() {
+        hook(&p);
+    }
+}
+
+#[inline]
+pub(crate) fn enabled() -> bool {
+    HOOK.get().is_some()
+}
+
+/// Sizes of the state retained by the global collector and the receiver registry.
+#[derive(Debug, Clone, Copy, Default, PartialEq, Eq)]
+pub struct CollectorStats {
+    pub active_collectors: usize,
+    pub buffered_span_sets: usize,
+    pub danglings: usize,
+    pub registered_receivers: usize,
+}
+
+/// Runs one collector cycle on the calling thread. Returns false when no reporter is installed.
+pub fn run_collector_cycle() -> bool {
+    crate::collector::global_collector::verif_run_collector_cycle()
+}
+
+/// Must not be called while a collector cycle is in progress on a paused thread.
+pub fn collector_stats() -> CollectorStats {
+    crate::collector::global_collector::verif_collector_stats()
+}
+
+/// Free slots in the calling thread's command ring (registers the thread's queue if needed).
+pub fn ring_free_slots() -> Option<usize> {
+    crate::collector::global_collector::verif_ring_free_slots()
+}
+
+/// Number of commands parked in the calling thread's overflow list.
+pub fn parked_commands() -> Option<usize> {
+    crate::collector::global_collector::verif_parked_commands()
+}
